@@ -35,6 +35,12 @@ func newStringPrefixFilter(code *syntax.Code) StringPrefixFilter {
 	opts := code.FindOptimizations
 	minRequiredLength := opts.MinRequiredLength
 
+	if searchesForRuneError(opts) {
+		// the filters compare bytes: an invalid byte of the input decodes to U+FFFD without
+		// being its encoding, so a literal containing U+FFFD cannot be looked for in the raw string
+		return nil
+	}
+
 	switch opts.FindMode {
 	case syntax.LeadingString_LeftToRight:
 		return stringIndexPrefixFilter(opts.LeadingPrefix, false, minRequiredLength)
@@ -62,6 +68,27 @@ func newStringPrefixFilter(code *syntax.Code) StringPrefixFilter {
 	default:
 		return nil
 	}
+}
+
+// searchesForRuneError reports whether the literal the find mode looks for contains U+FFFD
+func searchesForRuneError(opts *syntax.FindOptimizations) bool {
+	switch opts.FindMode {
+	case syntax.LeadingString_LeftToRight, syntax.LeadingString_OrdinalIgnoreCase_LeftToRight:
+		return strings.ContainsRune(opts.LeadingPrefix, utf8.RuneError)
+	case syntax.LeadingStrings_LeftToRight, syntax.LeadingStrings_OrdinalIgnoreCase_LeftToRight:
+		for _, prefix := range opts.LeadingPrefixes {
+			if strings.ContainsRune(prefix, utf8.RuneError) {
+				return true
+			}
+		}
+	case syntax.FixedDistanceChar_LeftToRight:
+		return opts.FixedDistanceLiteral.C == utf8.RuneError
+	case syntax.FixedDistanceString_LeftToRight:
+		return strings.ContainsRune(opts.FixedDistanceLiteral.S, utf8.RuneError)
+	case syntax.LiteralAfterLoop_LeftToRight:
+		return opts.LiteralAfterLoop != nil && strings.ContainsRune(opts.LiteralAfterLoop.String, utf8.RuneError)
+	}
+	return false
 }
 
 type asciiSetStringScanner struct {
